@@ -117,7 +117,7 @@ def _(rnd, g, tier):
     ns, nf = shape2(rnd, 2, big=(tier == "thorough" and rnd.random() < 0.03))
     im = img_f32(g, ns, nf, rnd.choice([0, 1, 2]))
     th = rnd.choice([0.0, 1.0, 2.0, 5.0, 50.0, float(im[rnd.randrange(ns), rnd.randrange(nf)]), -1.0, 1000.0])
-    return ({"data": L(im), "labels": [ns, nf], "threshold": th, "verbose": 0, "con8": rnd.choice([0, 1, 1]),
+    return ({"data": L(im), "labels": [ns, nf], "threshold": th, "verbose": rnd.choice([0, 0, 0, 1]), "con8": rnd.choice([0, 1, 1]),
              "ns": ns, "nf": nf}, {"data": "in", "labels": "out"}, {"labels": "all"})
 
 
@@ -129,7 +129,7 @@ def _(rnd, g, tier):
     if rnd.random() < 0.2 and npk:
         lab[rnd.randrange(ns), rnd.randrange(nf)] = npk  # label at capacity
     return ({"data": L(img_f32(g, ns, nf)), "labels": L(lab), "np": npk, "omega": rnd.choice([0.0, -3.5, 12.25]),
-             "verbose": 0, "ns": ns, "nf": nf, "results": [npk, NPROPERTY]},
+             "verbose": rnd.choice([0, 0, 0, 1]), "ns": ns, "nf": nf, "results": [npk, NPROPERTY]},
             {"data": "in", "labels": "in", "results": "out"}, {"results": "all"})
 
 
@@ -157,7 +157,7 @@ def _(rnd, g, tier):
         l1[g.random((ns, nf)) < 0.5] = 0
     return ({"labels1": L(l1), "npk1": n1, "results1": L(_blob_results(g, l1, n1, 1.0)),
              "labels2": L(l2), "npk2": n2, "results2": L(_blob_results(g, l2, n2, 2.0)),
-             "verbose": 0, "ns": ns, "nf": nf},
+             "verbose": rnd.choice([0, 0, 0, 1]), "ns": ns, "nf": nf},
             {"labels1": "io", "results1": "io", "labels2": "io", "results2": "io"},
             {"labels1": "all", "results1": "all", "labels2": "all", "results2": "all"})
 
@@ -569,7 +569,7 @@ def _(rnd, g, tier):
 def _(rnd, g, tier):
     n = rnd.choice([1, 2, 9, 100, 1000])
     return ({"img": L((g.random(n) * 100).astype(np.float32)), "npx": n, "mean": [1], "var": [1],
-             "n": rnd.choice([0, 1, 3]), "cut": rnd.choice([1.0, 3.0]), "verbose": 0},
+             "n": rnd.choice([0, 1, 3]), "cut": rnd.choice([1.0, 3.0]), "verbose": rnd.choice([0, 0, 0, 1])},
             {"img": "in", "mean": "out", "var": "out"}, {"mean": "all", "var": "all"})
 
 
@@ -577,7 +577,7 @@ def _(rnd, g, tier):
 def _(rnd, g, tier):
     n = rnd.choice([1, 2, 9, 100, 1000])
     return ({"img": L((g.random(n) * 100).astype(np.float32)), "msk": [n], "npx": n, "mean": [1], "var": [1],
-             "n": rnd.choice([0, 1, 3]), "cut": rnd.choice([1.0, 3.0]), "verbose": 0},
+             "n": rnd.choice([0, 1, 3]), "cut": rnd.choice([1.0, 3.0]), "verbose": rnd.choice([0, 0, 0, 1])},
             {"img": "in", "msk": "out", "mean": "out", "var": "out"}, {"msk": "all", "mean": "all", "var": "all"})
 
 
